@@ -32,6 +32,7 @@ import (
 	"github.com/nuts-foundation/nuts-node/vdr/didnuts/didstore"
 	"github.com/sirupsen/logrus"
 	"github.com/spf13/pflag"
+	"github.com/nuts-foundation/sqlite"
 	"gorm.io/gorm"
 	"verifsim/seams"
 	"verifsim/simkit"
@@ -99,6 +100,7 @@ type SimStorage struct {
 	kvs  map[string]*seams.KV
 	// SQL / Session are overridden by worlds that wrap them.
 	SQL     *gorm.DB
+	SQLSeam *seams.SQL
 	Session storage.SessionDatabase
 }
 
@@ -117,7 +119,23 @@ func (s *SimStorage) GetSQLDatabase() *gorm.DB {
 	if s.SQL != nil {
 		return s.SQL
 	}
-	return s.Real.GetSQLDatabase()
+	real := s.Real.GetSQLDatabase()
+	if real == nil || !s.node.Opts.SimSQL {
+		return real
+	}
+	// the same (already migrated) database handle underneath a gorm instance that goes through the SQL seam
+	raw, err := real.DB()
+	if err != nil {
+		panic(err)
+	}
+	n := s.node
+	s.SQLSeam = &seams.SQL{Real: raw, S: n.W.S, Inc: n.Inc, Name: n.Name + "/sql", F: n.W.F}
+	db, err := gorm.Open(sqlite.Dialector{Conn: s.SQLSeam}, &gorm.Config{TranslateError: true, Logger: real.Config.Logger})
+	if err != nil {
+		panic(err)
+	}
+	s.SQL = db
+	return db
 }
 func (s *SimStorage) GetProvider(module string) storage.Provider {
 	return &simProvider{s: s, module: strings.ToLower(module), real: s.Real.GetProvider(module)}
@@ -184,6 +202,8 @@ type NodeOpts struct {
 	// DiscoveryHost is the host name of the server node (for clients and the server itself).
 	DiscoveryServer bool
 	DiscoveryHost   string
+	// SimSQL puts gorm on the SQL seam (transactions and statements become scheduling, fault and crash points).
+	SimSQL bool
 	// ConfigYAML is written to the node's config file (for keys the environment cannot express).
 	ConfigYAML string
 	// Extra lets a world register more engines before Load; it receives the partly built node.
